@@ -118,6 +118,60 @@ func genF4(g *fw.GenCtx, em *emitter) {
 	add("restart-in-functional-sub", map[string]string{"_decl": "sub rs BOOL { restart; return true; }\n", "recv": "if (rs()) { log \"x\"; }"}, "miss")
 	add("error-in-functional-sub", map[string]string{"_decl": "sub rs BOOL { error 601; return true; }\n", "recv": "if (rs()) { log \"x\"; }"}, "miss")
 	em.mark()
+	// programs that declare only some of the lifecycle subroutines x request methods (a purge request takes
+	// its own path around vcl_recv): none, each one alone, all but each one, and seed-chosen subsets
+	{
+		host := []string{"Host: example.com"}
+		mreq := func(m, p string) string { return buildReq(m, p, "HTTP/1.1", host, "") }
+		histories := [][]string{
+			{mreq("GET", "/a"), mreq("FASTLYPURGE", "/a"), mreq("GET", "/a")},
+			{mreq("FASTLYPURGE", "/a")},
+			{mreq("PURGE", "/a"), mreq("HEAD", "/a"), mreq("POST", "/a")},
+			{mreq("GET", "/pass/a"), mreq("FASTLYPURGE", "/pass/a"), mreq("FASTLYPURGE", "/service/x/purge/key")},
+		}
+		var sets []map[string]bool
+		var names []string
+		sets, names = append(sets, map[string]bool{}), append(names, "none")
+		for _, s := range lcScopes {
+			sets, names = append(sets, map[string]bool{s: true}), append(names, "only-"+s)
+			ab := map[string]bool{}
+			for _, t := range lcScopes {
+				ab[t] = t != s
+			}
+			sets, names = append(sets, ab), append(names, "all-but-"+s)
+		}
+		for k := 0; k < g.Pick(12, 120); k++ {
+			m := map[string]bool{}
+			for _, s := range lcScopes {
+				m[s] = g.Rand.Intn(2) == 0
+			}
+			sets, names = append(sets, m), append(names, "subset")
+		}
+		recvActs := []string{"", "return(pass);", "return(lookup);", "error 601;", "restart;"}
+		for i, set := range sets {
+			for _, ra := range recvActs {
+				if ra != "" && !set["recv"] {
+					continue
+				}
+				var sb strings.Builder
+				sb.WriteString("backend b { .host = \"@ORIGIN_HOST@\"; .port = \"@ORIGIN_PORT@\"; }\n")
+				for _, s := range lcScopes {
+					if !set[s] {
+						continue
+					}
+					fmt.Fprintf(&sb, "sub vcl_%s {\n#FASTLY %s\n", s, strings.ToUpper(s))
+					if s == "recv" && ra != "" {
+						sb.WriteString("if (req.restarts == 0) { " + ra + " }\n")
+					}
+					sb.WriteString("}\n")
+				}
+				for _, h := range histories {
+					em.add(Exec{Fam: "F4", Con: "declared-subs/" + names[i], Mode: "http", Main: sb.String(), Reqs: h, Bound: true, Tag: "lc:declared-subs"})
+				}
+			}
+		}
+		em.mark()
+	}
 	// pairs of deviations (PRNG sample; key = the later scope's form)
 	type dev struct{ s, name, stmt string }
 	var devs []dev
